@@ -2,7 +2,7 @@
 (C02, C03, C05, C14): operand completeness, gate dependence, carry / flag discipline, overflow-mode agreement."""
 from .. import facts, mir
 from ..common import Report, finish
-from ..rules import carry, c15, gate, complete
+from ..rules import carry, c15, gate, complete, docpanic
 
 
 def self_adt(b):
@@ -19,6 +19,7 @@ def run(prop, tier, t0, fams, self_ok, carry_prefixes, rule_text, explanation, f
         complete.run(f, rep, cfg, sel, "%s.complete" % lo, "operations_checked_for_completeness",
                      what="operation of the %s family" % "/".join(sorted(fams)),
                      skip_param=lambda b, p, ty, nm: ty in ("bool",))
+        docpanic.run(f, rep, cfg, sel, "%s.docpanic" % lo)
         if need_gate:
             gate.run(f, rep, cfg, lambda b, fam: fam in fams and self_ok(b), "%s.gate" % lo, "fallible_operations")
         if carry_prefixes:
